@@ -457,7 +457,7 @@ def gen_cases(rings, cards, rng, tier):
                         pool += [lo_s, lo_s + 1, hi_s, hi_s - 1]
                         pool = [v for v in pool if lo_s <= v <= hi_s]
                     elif src in ("f", "d"):
-                        pool = [round_to_float(v, 24 if src == "f" else 53) for v in pool] + [2**63, -2**63, 2**31, -2**31]
+                        pool = [round_to_float(v, 24 if src == "f" else 53) for v in pool if abs(v) < (2**127 if src == "f" else 2**1000)] + [2**63, -2**63, 2**31, -2**31]
                     pool = sorted(set(v for v in pool if not in_known_defect(ring, src, m, v)))
                     for x in pool:
                         cases.append(("init", ring, src, p, k, x, hs))
